@@ -355,3 +355,200 @@ type vAddrConn struct {
 }
 
 func (c *vAddrConn) RemoteAddr() net.Addr { return c.remote }
+
+// C18.program: the net.Conn adapter driven by a program of steps - Write (0/1/3 bytes), Read (buffer 1/2/8), the peer
+// sending a binary message (0/1/3 bytes), a text message (the wrong type), a Close frame (1000, 1001 with reason, 1002,
+// without status), time passing, read and write deadlines set in the future / in the past / withdrawn, Close - against a
+// model of the byte stream: every Read that has data hands out the next bytes of the concatenation of the peer's
+// messages (empty ones skipped), a normal or going-away close reads as io.EOF (for good), anything else is an error; a
+// deadline that passed while idle fails the calls of its direction with a deadline error until it is reset, and leaves
+// the connection usable; a Read that waits into its deadline fails and the connection is closed; what was written is, in
+// order, what the wire carries as binary messages. Reads are only issued when the model knows they return (data, an
+// event, or an armed deadline).
+func verifC18_program() {
+	client := vParam("client", 1) == 1
+	steps := vParam("steps", 3)
+	lean := vParam("lean", 0)
+	vInstallRand()
+	mk := func(f vFrame) vFrame {
+		f.masked = !client
+		if f.masked {
+			copy(f.key[:], vBytes("key", 4))
+		}
+		return f
+	}
+	t := vNewTransport(nil)
+	t.endMode = vEndBlock
+	c := vNewConn(t, client, vCopts(vParam("deflate", 0)), 16, 32)
+	nc := NetConn(vBG, c, MessageBinary)
+	feed := func(f vFrame) { t.vFeed(vEncodeFrame(mk(f))) }
+	type ev struct {
+		kind int // 0 bytes, 1 wrong type, 2 close
+		b    []byte
+		code int
+	}
+	var in []ev
+	var written []byte
+	open := true     // the connection is usable
+	eof := false     // a normal close has been read
+	var rd, wd time.Duration // read / write deadline as ghost instants (0: none)
+	rdSet, wdSet := false, false
+	trace := ""
+	lens := []int{0, 1, 3}
+	isDeadline := func(err error) bool { return err != nil && errors.Is(err, context.DeadlineExceeded) }
+	for i := 0; i < steps; i++ {
+		now := vGhostElapsed()
+		op := 0
+		pick := func(tag string, n, fixed int) int {
+			if lean > 0 {
+				return fixed
+			}
+			return vChoose(tag, n)
+		}
+		switch lean {
+		case 1:
+			// depth over breadth, read side: Read (1-byte buffer), a 3-byte message, time, the three read-deadline steps, Close 1000
+			op = []int{1, 2, 5, 6, 7, 8, 4}[vChoose("op", 7)]
+		case 2:
+			// write side: Write, time, the three write-deadline steps, a message and a Read
+			op = []int{0, 5, 9, 10, 11, 2, 1}[vChoose("op", 7)]
+		default:
+			op = vChoose("op", 12)
+		}
+		switch op {
+		case 0:
+			trace += "W"
+			p := vBytes("w", lens[pick("wlen", 3, 1)])
+			n, err := nc.Write(p)
+			switch {
+			case !open:
+				vAssert(err != nil, "C18.program.write-fails-on-a-closed-connection")
+			case wdSet && now >= wd:
+				vAssert(isDeadline(err), "C18.deadline.idle-expiry-fails-writes-with-a-deadline-error")
+			default:
+				vAssert(err == nil && n == len(p), "C18.program.write-succeeds")
+				written = append(written, p...)
+			}
+		case 1:
+			// Read, if the model knows it returns
+			bufN := []int{1, 2, 8}[pick("buf", 3, 0)]
+			for len(in) > 0 && in[0].kind == 0 && len(in[0].b) == 0 {
+				in = in[1:]
+			}
+			expired := rdSet && now >= rd
+			if open && !eof && !expired && len(in) == 0 && !rdSet {
+				continue // it would block for ever
+			}
+			trace += "R"
+			p := make([]byte, bufN)
+			n, err := nc.Read(p)
+			switch {
+			case eof && expired:
+				// both clauses apply (the stream has ended; the deadline has passed): either report is right
+				vAssert(n == 0 && (err == io.EOF || isDeadline(err)), "C18.eof.sticky")
+			case eof:
+				vAssert(err == io.EOF && n == 0, "C18.eof.sticky")
+			case !open:
+				vAssert(err != nil && err != io.EOF, "C18.program.read-fails-on-a-closed-connection")
+			case expired:
+				vAssert(isDeadline(err) && n == 0, "C18.deadline.idle-expiry-fails-reads-with-a-deadline-error")
+				vAssert(vIsOpen(c), "C18.deadline.idle-expiry-leaves-the-connection-usable")
+			case len(in) == 0:
+				// waits into its deadline: the call fails and the connection is closed
+				vAssert(err != nil && err != io.EOF, "C18.deadline.active-call-fails")
+				vAssert(!vIsOpen(c), "C18.deadline.active-call-closes-the-connection")
+				open = false
+			case in[0].kind == 0:
+				vAssert(err == nil && n >= 1 && n <= len(in[0].b), "C18.stream.read-returns-data")
+				if err == nil && n >= 1 && n <= len(in[0].b) {
+					vAssert(vEqBytes(p[:n], in[0].b[:n]), "C18.stream.bytes-in-order")
+					in[0].b = in[0].b[n:]
+					if len(in[0].b) == 0 {
+						in = in[1:]
+					}
+				}
+			case in[0].kind == 1:
+				vAssert(err != nil && err != io.EOF, "C18.type.read-fails")
+				vAssert(!vIsOpen(c), "C18.type.closed")
+				open = false
+			default:
+				if in[0].code == 1000 || in[0].code == 1001 {
+					vAssert(err == io.EOF && n == 0, "C18.eof.normal-codes-are-eof")
+					eof = true
+				} else {
+					vAssert(err != nil && err != io.EOF, "C18.eof.only-normal-codes")
+				}
+				open = false
+				in = nil
+			}
+		case 2:
+			trace += "m"
+			p := vBytes("m", lens[pick("mlen", 3, 2)])
+			feed(vFrame{fin: true, opcode: 2, payload: p})
+			in = append(in, ev{kind: 0, b: p})
+		case 3:
+			trace += "t"
+			feed(vFrame{fin: true, opcode: 1, payload: vBytes("t", 1)})
+			in = append(in, ev{kind: 1})
+		case 4:
+			trace += "c"
+			switch pick("code", 4, 0) {
+			case 0:
+				feed(vFrame{fin: true, opcode: 8, payload: []byte{0x03, 0xe8}})
+				in = append(in, ev{kind: 2, code: 1000})
+			case 1:
+				feed(vFrame{fin: true, opcode: 8, payload: []byte{0x03, 0xe9, 'b', 'y', 'e'}})
+				in = append(in, ev{kind: 2, code: 1001})
+			case 2:
+				feed(vFrame{fin: true, opcode: 8, payload: []byte{0x03, 0xea}})
+				in = append(in, ev{kind: 2, code: 1002})
+			default:
+				feed(vFrame{fin: true, opcode: 8})
+				in = append(in, ev{kind: 2, code: 1005})
+			}
+		case 5:
+			trace += "s"
+			time.Sleep(time.Second)
+		case 6:
+			trace += "D" // read deadline 1.5 s from now
+			nc.SetReadDeadline(time.Now().Add(1500 * time.Millisecond))
+			rd, rdSet = now+1500*time.Millisecond, true
+		case 7:
+			trace += "P" // read deadline already past
+			nc.SetReadDeadline(time.Now().Add(-time.Second))
+			rd, rdSet = 0, true
+		case 8:
+			trace += "Z" // read deadline withdrawn
+			nc.SetReadDeadline(time.Time{})
+			rdSet = false
+		case 9:
+			trace += "d"
+			nc.SetWriteDeadline(time.Now().Add(1500 * time.Millisecond))
+			wd, wdSet = now+1500*time.Millisecond, true
+		case 10:
+			trace += "p"
+			nc.SetWriteDeadline(time.Now().Add(-time.Second))
+			wd, wdSet = 0, true
+		case 11:
+			trace += "z"
+			nc.SetWriteDeadline(time.Time{})
+			wdSet = false
+		}
+	}
+	vReach("C18.program.done")
+	c.CloseNow()
+	// the wire: binary messages whose payloads, concatenated, are what was written
+	frames, ok := vParseWritten(t.out)
+	vAssert(ok, "C18.program.wire-wellformed")
+	var sent []byte
+	for _, f := range frames {
+		if f.opcode < 8 {
+			vAssert(f.opcode == 2 || f.opcode == 0, "C18.stream.binary-messages")
+			sent = append(sent, f.payload...)
+		}
+	}
+	vAssert(vEqBytes(sent, written), "C18.stream.written-bytes-on-the-wire-in-order")
+	vAssert(vGhostGoroutines() == 0, "C20.exit.no-goroutine-left")
+	vClassify("program", trace)
+	vObserve("c18program", trace, vWireSummary(t.out))
+}
